@@ -75,7 +75,7 @@ theorem valAt_eq_fieldAt (W : Nat) (ws : Array Nat) (bw i : Nat) :
 theorem fieldAt_lt (W : Nat) (ws : Array Nat) (p n : Nat) : fieldAt W ws p n < 2 ^ n :=
   bitsVal_lt _ _
 
-theorem valAt_lt (W : Nat) (ws : Array Nat) (bw i : Nat) : valAt W ws bw i < 2 ^ bw :=
+theorem valAt_lt_pow (W : Nat) (ws : Array Nat) (bw i : Nat) : valAt W ws bw i < 2 ^ bw :=
   bitsVal_lt _ _
 
 theorem testBit_fieldAt (W : Nat) (ws : Array Nat) (p n j : Nat) :
@@ -263,7 +263,7 @@ theorem getU_words {W : Nat} (hW : 0 < W) (s : St) (hbw : s.bw ≤ W) (hok : Wor
   rw [Nat.succ_mul] at hi
   exact getU_pos hW s.words hok (i * s.bw) s.bw hbw hi (fun h => ⟨by rw [h]; rfl, h1 h⟩)
 
-theorem getU_spec (W : Nat) (hW : 0 < W) (s : St) (h : s.Inv W) (i : Nat) (hi : i < s.len) :
+theorem getU_of_inv (W : Nat) (hW : 0 < W) (s : St) (h : s.Inv W) (i : Nat) (hi : i < s.len) :
     getU W s i = .ok (valAt W s.words s.bw i) := by
   obtain ⟨hbw, hlen, h1, hok⟩ := h
   apply getU_words hW s hbw hok (fun _ => h1)
@@ -356,7 +356,7 @@ theorem setWords_spec {W : Nat} (hW : 0 < W) (ws : Array Nat) (hok : WordsOK W w
       · exact set_two_hi_lt _ _ _ _ hbw hv (getD_lt hok _)
     · intro k; exact set_store_two hW ws hok p bw v hbw (by omega) hwi1 hv k
 
-theorem setU_spec (W : Nat) (hW : 0 < W) (s : St) (h : s.Inv W) (i v : Nat)
+theorem setU_of_inv (W : Nat) (hW : 0 < W) (s : St) (h : s.Inv W) (i v : Nat)
     (hi : (i + 1) * s.bw ≤ W * s.words.size) (hv : v < 2 ^ s.bw) :
     ∃ s', setU W s i v = .ok s' ∧ s'.len = s.len ∧ s'.bw = s.bw ∧ s'.words.size = s.words.size ∧
       WordsOK W s'.words ∧
